@@ -573,6 +573,17 @@ def run_unit(prop_id, unit, tier, seed=0):
         res["violations"].append({"unit": unit.name, "key": unit.key, "obligation": ob_name, "detail": (detail or "")[:600], "replay": path, "found_by": how,
                                   "inputs": {k: (float(v) if not isinstance(v, (bool, int)) else v) for k, v in list(values.items())[:24]}})
 
+    if unit.opts.get("concrete_only"):
+        # a unit without symbolic inputs (a fixed catalogue instance): one concrete run of the real code, nothing for the solver to decide
+        status, failed, cctx = run_concrete(unit, {}, tier, mode="sample", rng=rng)
+        res["paths"] = res["completed_paths"] = res["reachable_paths"] = 1
+        res["obligations"] = len(cctx.obligations) + (1 if status == "exception" else 0)
+        res["discharged"] = res["obligations"] - len(failed)
+        for f in failed:
+            violation(cctx.values, f.name, f.detail, "concrete-instance")
+        res["samples"] = [{"unit": unit.name, "obligation": o.name, "verdict": "concrete instance"} for o in cctx.obligations[:1]]
+        res["wall_s"] = round(time.time() - t0, 2)
+        return res
     # ---- 1. translator validation: concrete float run vs pinned exact run of the patched code
     try:
         tries = 0
